@@ -459,11 +459,13 @@ func TestC04(t *testing.T) {
 	known := checkKnownFindings(rec)
 
 	var wg sync.WaitGroup
-	run := func(f func()) {
+	t0 := time.Now()
+	run := func(name string, f func()) {
 		wg.Add(1)
 		go func() {
 			defer wg.Done()
 			f()
+			fmt.Printf("[%6.1fs] %s finished\n", time.Since(t0).Seconds(), name)
 		}()
 	}
 	only := os.Getenv("C04_ONLY") // development aid: run one generator only
@@ -477,18 +479,19 @@ func TestC04(t *testing.T) {
 		return
 	}
 	if only == "" || strings.Contains(only, "sources") {
-		run(func() { superviseSources(rec, known) })
+		run("sources", func() { superviseSources(rec, known) })
 	}
 	if only == "" || strings.Contains(only, "lib") {
-		run(func() { superviseLib(rec, known) })
+		run("lib", func() { superviseLib(rec, known) })
 	}
 	if only == "" || strings.Contains(only, "templates") {
-		run(func() { superviseTemplates(rec, known) })
+		run("templates", func() { superviseTemplates(rec, known) })
 	}
 	wg.Wait()
 	if knownWG != nil {
 		knownWG.Wait()
 	}
+	fmt.Printf("[%6.1fs] known-finding demonstrations finished\n", time.Since(t0).Seconds())
 }
 
 // TestC04Child is the entry point of every child process.
